@@ -1351,6 +1351,7 @@ func u64s(v []uint64) string {
 }
 
 func genC17(c *Ctx) {
+	mashSeeds(c)
 	mashRound7(c)
 	mashRound6(c)
 	mashRound4(c)
